@@ -33,6 +33,19 @@ CHECKS = {
         design='4 C03'),
 }
 
+CHECKS['C05'] = dict(
+    category='proof',
+    text="Deductive: nat_eval / int_eval / real_eval are proved to compute the standard denotation (truncated "
+         "subtraction at nat, x/0 = 0, exact rationals) of every ground arithmetic term, numerals included "
+         "(is_number/dest_number/dest_binary), and the level-0 macros nat_eval, int_eval, real_eval, "
+         "int_const_ineq, real_const_ineq, real_const_eq, real_compare are proved to return only true "
+         "(in)equations AND only for goals at their own numeric type (shape/type test).",
+    note="Trusted: pyvc, z3; signature conformance of arithmetic constants (A1b); products of two symbolic "
+         "numbers uninterpreted. real_norm_macro and the float-based ConstInequalityMacro are not covered.",
+    technique="contract-based deductive verification (own ast->z3 VC generator, structural induction against "
+              "a denotation spec, lemmas), native replay",
+    design='4 C05')
+
 NOT_APPLICABLE = {
     'C19': "real-analytic equality of integrals/limits/series with a numeric floating-point oracle; no decidable "
            "function contract (DESIGN 4 C19)",
